@@ -246,6 +246,8 @@ class ReadableStream(io.RawIOBase):
         self.sdo_client = sdo_client
         self._toggle = 0
         self.pos = 0
+        #: Data received but not yet handed out by readinto()
+        self._unread = b""
 
         logger.debug("Reading 0x%04X:%02X from node %d", index, subindex,
                      sdo_client.rx_cobid - 0x600)
@@ -319,7 +321,11 @@ class ReadableStream(io.RawIOBase):
         Read bytes into a pre-allocated, writable bytes-like object b,
         and return the number of bytes read.
         """
-        data = self.read(7)
+        if not self._unread:
+            self._unread = self.read(7)
+        # The caller's buffer may be smaller than one segment
+        data = self._unread[:len(b)]
+        self._unread = self._unread[len(b):]
         b[:len(data)] = data
         return len(data)
 
@@ -475,6 +481,8 @@ class BlockUploadStream(io.RawIOBase):
         self._server_crc = None
         self._ackseq = 0
         self._error = False
+        #: Data received but not yet handed out by readinto()
+        self._unread = b""
 
         logger.debug("Reading 0x%04X:%02X from node %d", index, subindex,
                      sdo_client.rx_cobid - 0x600)
@@ -622,7 +630,11 @@ class BlockUploadStream(io.RawIOBase):
         Read bytes into a pre-allocated, writable bytes-like object b,
         and return the number of bytes read.
         """
-        data = self.read(7)
+        if not self._unread:
+            self._unread = self.read(7)
+        # The caller's buffer may be smaller than one segment
+        data = self._unread[:len(b)]
+        self._unread = self._unread[len(b):]
         b[:len(data)] = data
         return len(data)
 
